@@ -154,10 +154,6 @@ Definition stage_eqb (a b : stage) : bool :=
    package is given: the rich __init__.py exists only in the direct path) *)
 Definition tok_client_init (c : config) : N := match core_pkg c with Some _ => 2 | None => 0 end.
 
-(* str(core_dir).startswith(str(out_dir)) — a test on the rendered strings, not on components *)
-Definition path_str (p : path) : str := concat (map (fun c => 47 :: c) p).
-Definition core_str_inside_out (c : config) : bool := prefixb (path_str (out_dir c)) (path_str (core_dir c)).
-
 (* the __init__.py loop: current = dir; while current != project_root: ...; current = current.parent *)
 Definition init_chain (rel : path) : list fs_op :=
   map (fun q => WriteIfAbsent (q ++ [s_init]) 0) (rev (prefixes rel)).
@@ -199,14 +195,14 @@ Definition rel_effects_gen (c : config) (diff : bool) (st : stage) : list fs_op 
   match st with
   | Load | Parse | Diff | Final | Other | Post => []
   | Setup =>
-      if diff then [Mkdirs []; Mkdirs o; Mkdirs k]
+      if diff then [Mkdirs []; Mkdirs o; Mkdirs k] ++ init_chain k   (* Path.touch() up to the temporary root *)
       else (* the registry of a core INSIDE the output directory is read before the clean-up and written back *)
            (if under o k && negb (path_eqb o k) then [Stash (k ++ [s_registry])] else [])
            ++ [Rmtree o; Mkdirs (removelast o); Mkdirs o]
            ++ (if path_eqb k o then [] else [Mkdirs (removelast k); Mkdirs k])
            ++ (if under o k && negb (path_eqb o k) then [Unstash (k ++ [s_registry])] else [])
            ++ init_chain o
-           ++ (if core_str_inside_out c then [] else init_chain k)
+           ++ (if path_eqb k o then [] else init_chain k)
   | Exceptions =>
       map (rebase k) ((if is_shared_core c then [Write [s_registry] 0] else []) ++ [Write [s_aliases] 0])
   | Core => map (rebase k) core_ops
